@@ -25,7 +25,8 @@ Obs == [regs |-> [h \in Handles |-> RegOut(regs[h])],
 GInit == Init /\ log = <<[op |-> <<"init", budget>>]>>
 \* handle 2 is never created first, and when constructed directly it is one representative region
 \* (its role is "the other region": clone target, bystander of a refusal)
-Canon == /\ regs'[2].alive => (regs[1].alive \/ regs[2].alive)
+Canon == /\ lastop'[1] # "view"      \* contents are compared after every step anyway
+         /\ regs'[2].alive => (regs[1].alive \/ regs[2].alive)
          /\ (lastop'[1] = "ctor" /\ lastop'[2] = 2) => (lastop'[3] = "from_slice_into_readonly_locked" /\ lastop'[4] = "Resizable" /\ lastop'[5] = 4097)
 WipeFocus == Focus = "wipe" =>
   /\ lastop'[1] \in {"ctor", "resize", "clone", "drop", "fill", "munlock", "heap_mlock"}
